@@ -226,11 +226,15 @@ def parse_verdict(out):
     return idx(m.group(1)), idx(m.group(2))
 
 
-def coq_eval_cases(mod, terms, workdir, tag, shard=400):
+def coq_eval_cases(mod, terms, workdir, tag, shard=None):
     """terms: list of Gallina `case` terms.  Returns (bad_corr, bad_prop, errors)
     as lists of indices into terms."""
     os.makedirs(workdir, exist_ok=True)
     files = []
+    if shard is None:
+        # spread the cases over the cores; at most 400 cases per file
+        shard = max(20, min(400, -(-len(terms) // NCPU)))
+    coq_eval_cases.last_shard = shard
     for k in range(0, len(terms), shard):
         chunk = terms[k:k + shard]
         fn = os.path.join(workdir, 'cases_%s_%d.v' % (tag, k // shard))
@@ -434,7 +438,8 @@ def run_property(mod, tier='quick', seed=0, replay=None):
             bad_prop = [tidx[i] for i in bp]
         for fn, out in errors:
             obligations.append(('correspondence-batch:' + os.path.basename(fn), False, out[-800:]))
-        nbatches = (len(terms) + 399) // 400
+        sh = getattr(coq_eval_cases, 'last_shard', 400)
+        nbatches = (len(terms) + sh - 1) // sh if terms else 0
         for b in range(nbatches - len(errors)):
             obligations.append(('correspondence-batch:%d' % b, True, ''))
         # 4. verdict
